@@ -576,13 +576,32 @@ func (p *pipeGen) purge(g gid) {
 	p.op("pipe purge %s,%d,%d", nameTok(c.ls), g.qtype, g.class)
 	p.op("pipe purged %s", lastPurgeRemoved)
 	p.op("pipe dump")
+	// what was purged must be gone on EVERY route (the wire routes have their own indexes)
+	q := fmt.Sprintf("%s,%d,%d,%s", nameTok(g.ls), g.qtype, g.class, vlib.B(p.r.Chance(1, 4)))
+	p.op("pipe get wire %s -", q)
+	p.op("pipe get msg %s -", q)
+	p.op("pipe get store %s -", q)
+	p.op("pipe cget wire %s,0,%d", nameTok(g.ls), g.class)
+	p.op("pipe fget wire %s,%d,%d,f,-", nameTok(g.ls), g.qtype, g.class)
+	if len(g.ls) > 0 {
+		ch := append([][]byte{genLabel(p.r)}, g.ls...)
+		if len(wireOf(ch)) <= 255 {
+			p.op("pipe get wire %s,%d,%d,f -", nameTok(ch), g.qtype, g.class)
+		}
+	}
 }
 
 // chase: alias chains walked inside the cache by the wire path, with honest and
 // forged hops, loops and the hop limit.
 func (p *pipeGen) chaseCase() {
 	r := p.r
-	p.start()
+	prefetch := r.Chance(1, 3)
+	if prefetch {
+		p.ecs = !r.Chance(1, 6)
+		p.op("pipe new %s 32,128,32,128,50", map[bool]string{true: "on", false: "off"}[p.ecs])
+	} else {
+		p.start()
+	}
 	qtype := vlib.Pick(r, []int{1, 28})
 	cd := r.Chance(1, 3)
 	hops := 1 + r.Intn(3)
@@ -599,8 +618,15 @@ func (p *pipeGen) chaseCase() {
 			names[i] = [][]byte{{'r', byte('0' + i%10)}}
 		}
 	}
-	class := vlib.Pick(r, []int{1, 1, 1, 3, 4})
+	class := vlib.Pick(r, []int{1, 1, 1, 3, 4, 255})
+	// the records of an alias may carry another class than the question (QCLASS ANY answered with IN
+	// records, a CH question answered with an IN CNAME): the chase must stay in the QUESTION's class
+	rr := ""
+	if class != 1 && r.Chance(1, 2) {
+		rr = " rr=1"
+	}
 	g := func(i int) gid { return gid{ls: names[i], qtype: qtype, class: class, cd: cd} }
+	var stored []int
 	broken := -1
 	if r.Chance(1, 2) {
 		broken = 1 + r.Intn(hops)
@@ -618,14 +644,24 @@ func (p *pipeGen) chaseCase() {
 			p.op("pipe set q=%s %s %d %s", g(i).tok(), z.tok(), p.nextID(), nameTok(target))
 			continue
 		}
-		p.op("pipe set own %s %d %s", g(i).tok(), p.nextID(), nameTok(target))
+		p.op("pipe set own %s %d %s%s", g(i).tok(), p.nextID(), nameTok(target), rr)
+		stored = append(stored, p.id)
 	}
 	if !loop {
 		if broken == hops {
 			z, _ := mutate(r, g(hops), []string{"byte", "cd", "class", "type", "scope-none"})
 			p.op("pipe set q=%s %s %d -", g(hops).tok(), z.tok(), p.nextID())
 		} else if r.Chance(5, 6) {
-			p.op("pipe set own %s %d -", g(hops).tok(), p.nextID())
+			p.op("pipe set own %s %d -%s", g(hops).tok(), p.nextID(), rr)
+			stored = append(stored, p.id)
+		}
+	}
+	if prefetch {
+		// hop entries inside their prefetch window: the sub-query that hits one claims its refresh
+		for _, id := range stored {
+			if r.Chance(1, 2) {
+				p.op("pipe age %d", id)
+			}
 		}
 	}
 	// decoys: a hop's name answered in ANOTHER class / CD partition / type, honestly stored
@@ -657,8 +693,21 @@ func (p *pipeGen) chaseCase() {
 	other.cd = !cd
 	p.op("pipe get wire %s,%d,%d,%s -", nameTok(other.ls), qtype, class, vlib.B(other.cd))
 	oc := g(0)
-	oc.class = vlib.Pick(r, []int{1, 3, 4})
+	oc.class = vlib.Pick(r, []int{1, 3, 4, 255})
 	p.op("pipe get msg %s,%d,%d,%s -", nameTok(oc.ls), qtype, oc.class, vlib.B(cd))
+	if prefetch {
+		first := p.id + 1
+		p.id += 12
+		p.op("pipe drain %d", first)
+		for i := 0; i <= hops && i < 3; i++ {
+			q := fmt.Sprintf("%s,%d,%d,%s", nameTok(g(i).ls), qtype, class, vlib.B(cd))
+			p.op("pipe get msg %s -", q)
+			p.op("pipe get wire %s,%d,%d,%s -", nameTok(g(i).ls), qtype, class, vlib.B(!cd))
+		}
+		p.op("pipe drain %d", p.id+1)
+		p.id += 12
+		p.op("pipe dump")
+	}
 }
 
 // composite: RFC 8020 cuts and RFC 9520 failures, honest and under forged hashes.
